@@ -19,8 +19,11 @@ Hdr(c) == IF status = 0 THEN c ELSE status
 WH(c) == Len(hist) < MaxOps /\ status' = Hdr(c) /\ UNCHANGED <<cap, bytes>> /\ hist' = Append(hist, [op |-> "WH", x |-> c])
 W(acc) == Len(hist) < MaxOps /\ status' = Hdr(200) /\ bytes' = bytes + acc /\ UNCHANGED cap /\ hist' = Append(hist, [op |-> "W", x |-> acc])
 RF(acc) == Len(hist) < MaxOps /\ cap = "full" /\ status' = Hdr(200) /\ bytes' = bytes + acc /\ UNCHANGED cap /\ hist' = Append(hist, [op |-> "RF", x |-> acc])
+\* Flush (capabilities "flusher" and "full"): passed through; it is neither a header nor body - what is reported afterwards is
+\* what it would have been (a Write after it is still "the body came first": 200)
+FL == Len(hist) < MaxOps /\ cap # "basic" /\ UNCHANGED <<cap, status, bytes>> /\ hist' = Append(hist, [op |-> "FL", x |-> 0])
 \* 103: an informational code first is still the FIRST header the proxy saw (what it reports); later headers do not replace it
-Next == (\E c \in {201, 404, 103} : WH(c)) \/ (\E a \in {5, 4, 0} : W(a)) \/ (\E a \in {7, 3} : RF(a))
+Next == (\E c \in {201, 404, 103} : WH(c)) \/ (\E a \in {5, 4, 0} : W(a)) \/ (\E a \in {7, 3} : RF(a)) \/ FL
 Spec == Init /\ [][Next]_vars
 Emit == PrintT("@@SEQ|" \o cap \o "|" \o ToJson([ops |-> hist, status |-> status, size |-> bytes]))
 EmitAll == Emit
@@ -29,5 +32,6 @@ RECURSIVE Run(_, _, _, _)
 Run(ops, i, st, by) == IF i > Len(ops) THEN <<st, by>>
                        ELSE LET o == ops[i] IN
                             IF o.op = "WH" THEN Run(ops, i + 1, IF st = 0 THEN o.x ELSE st, by)
+                            ELSE IF o.op = "FL" THEN Run(ops, i + 1, st, by)
                             ELSE Run(ops, i + 1, IF st = 0 THEN 200 ELSE st, by + o.x)
 =============================================================================
